@@ -511,6 +511,7 @@ def _state_flags(chk, facts):
             raise AnchorError("struct generate::convert::state::State not found")
         fields_all = [fn_ for fn_, _ in st_struct["fields"]]
         methods = {f_["name"]: f_ for f_ in syn.fns if f_["mod"] == "generate::convert::state" and "State" == (f_.get("impl_of") or "").strip() and f_.get("body")}
+        unc_all = []
         for setter, field in STATE_SETTERS.items():
             f = syn.one_fn(setter, mod="generate::convert::state", impl_of="State")
             ev_s = SmallEval()
@@ -536,9 +537,12 @@ def _state_flags(chk, facts):
                         break
             except NoEval as ex:
                 ok, why_s = False, f"could not be evaluated ({ex})"
+            unc_all += ev_s.uncovered()
             chk.ob("R-C01-7", f"setter:{setter}", ok, f"State::{setter} sets `{field}` and copies the rest" if ok else
                    f"State::{setter} no longer sets exactly `{field}` ({why_s}): another desugaring flag changes with it", facts.loc_of(f))
             n += 1
+        chk.ob("R-C01-7", "setters:fold-covers-every-branch", not unc_all, "the argument table (None / Some for optional parameters) reaches every branch of the setters" if not unc_all else
+               f"the argument table does not reach {len(unc_all)} branch(es) of the State setters, e.g. {unc_all[0]}")
         chk.floor("R-C01-7", n, 8, "State setters")
     except AnchorError as e:
         chk.anchor_fail("R-C01-7", e)
